@@ -239,7 +239,7 @@ def prog_worker(inst):
     from harness.core import TypeViolation, check_prog, check_result_type, conc_leaves
     from lang.prog import type_of, subs as P_subs
     _, mode, prog = inst
-    tmo = 4000 if os.environ.get("VERIF_TIER", "quick") == "quick" else 30000
+    tmo = 4000 if os.environ.get("VERIF_TIER", "quick") == "quick" else 10000
     if mode in ("chained", "chained_normalize"):
         # f(a)(b): the oracle is the NESTED substitution
         _, f, pairs = prog
